@@ -481,7 +481,10 @@ def remove_small_rotations(circuit, param_threshold=1e-3, remove_qubits=False):
     """
 
     rot_gates = {"RX", "RY", "RZ", "CRX", "CRY", "CRZ"}
-    gates = [g for g in circuit._gates if not (g.name in rot_gates and abs(g.parameter) % (2*np.pi) < param_threshold)]
+    # Controlled rotations are 4*pi-periodic: a rotation by 2*pi is -1 on the controlled branch, not a global phase
+    ctrl_rot_gates = {"CRX", "CRY", "CRZ"}
+    gates = [g for g in circuit._gates if not (g.name in rot_gates and
+             abs(g.parameter) % ((4 if g.name in ctrl_rot_gates else 2)*np.pi) < param_threshold)]
 
     return Circuit(gates) if remove_qubits else Circuit(gates, n_qubits=circuit.width)
 
